@@ -54,7 +54,7 @@ class Fam:
         for w, verdict, detail in res:
             if w.expect == 'compile' and verdict != 'accepted':
                 viol.append(Violation(self.id, w.key + '/rejected', 'witness:' + w.key,
-                                      'conflict-free twin program is rejected by the compiler (%s): %s' % (detail.get('codes'), w.note), {'code': w.code, 'rustc': detail.get('msg', '')[:1500]}))
+                                      ('the compile-time Stages type differs from the reference partition (%s): %s' if self.id == 'V-SCHED' else 'program that must compile (conflict-free twin / expected type) is rejected by the compiler (%s): %s') % (detail.get('codes'), w.note), {'code': w.code, 'rustc': detail.get('msg', '')[:1500]}))
             if w.expect == 'fail' and verdict == 'accepted':
                 viol.append(Violation(self.id, w.key + '/accepted', 'witness:' + w.key,
                                       'program that must be rejected (%s) compiles: %s' % (w.cls, w.note), {'code': w.code}))
